@@ -3,12 +3,13 @@ CONSTANTS
   MaxCmd = 2
   MaxEv = 1
   MaxLop = 1
-  MaxPost = 3
+  MaxPost = 2
   MaxDisc = 2
-  ReplyShapes <- RS_three
+  ReplyShapes <- RS_two
   EventShapes <- ES_two
   EvNames <- N1
   Listeners <- L2
+  SubmitKinds <- K3
   Loose = FALSE
   Dev <- NoDev
 INVARIANT TypeOK
